@@ -8,7 +8,7 @@
    the parser deletes (outlier, destinations, age_ts, unsigned, event_id for formats 2/3) and no
    key starting with an underscore, its content hash is right (so the event is not replaced by
    its redacted form), and the fields other than the four limited ones have their JSON types. *)
-From Verif Require Import Lib.Bytes Ident.Chars Ident.Limits Ident.Versions Json.Ast Json.Parse.
+From Verif Require Import Lib.Bytes Ident.Chars Ident.Limits Ident.Versions Ident.ServerName Ident.Ids Json.Ast Json.Parse.
 Open Scope N_scope.
 
 Definition verdict_text (v : verdict) : bytes :=
@@ -22,17 +22,23 @@ Definition verdict_text (v : verdict) : bytes :=
 Definition m_room_create : bytes := bs "m.room.create".
 
 (* the room-ID check made when the event struct is filled: checkID for eventV1 / eventV2,
-   checkRoomID (sigil and length, skipped for the create event) for eventV3 *)
+   checkRoomID (sigil, validity, length; skipped for the create event) for eventV3; in both
+   cases a room ID that spec.NewRoomID refuses is refused (repair of F9) *)
+Definition room_valid (room : bytes) : bool :=
+  match room_id_parse room with Some _ => true | None => false end.
 Definition check_room (struct : N) (type : bytes) (state_key : option bytes) (room : bytes) : verdict :=
   if struct =? 3 then
     let is_create := bytes_eqb type m_room_create
                      && match state_key with Some k => is_nil k | None => false end in
     if is_create then VOk
     else match room with
-         | c :: _ => if c =? 33 then check_id_length room else VErr
+         | c :: _ => if c =? 33 then (if room_valid room then check_id_length room else VErr) else VErr
          | [] => VErr
          end
-  else check_id room 33.
+  else match check_id room 33 with
+       | VOk => if room_valid room then VOk else VErr
+       | e => e
+       end.
 
 (* the room-ID check, then CheckFields *)
 Definition event_checks (struct : N) (v : bytes) (refs_nil : bool) (json_len : N) (type : bytes)
